@@ -77,7 +77,7 @@ def replay_exec(ctx, tag, records, engines, pair=None, claim=None, timeout_ms=20
 # Machine.tla (TraceInterp.tla): every register of every step, helper calls, outcome, memory.
 # ------------------------------------------------------------------------------------------------
 def validate_trace(ctx, tag, path, devs):
-    r = run_tlc(tag, "TraceInterp", {"NB": 8, "LB": 8, "TraceDevs": set(devs), "CheckEngines": ctx.prop in ("C03", "C04")}, spec="TraceSpec",
+    r = run_tlc(tag, "TraceInterp", {"NB": 8, "LB": 8, "TraceDevs": set(devs), "CheckEngines": {"C03": {"jit"}, "C04": {"cl"}}.get(ctx.prop, set())}, spec="TraceSpec",
                 invariants=["TraceInv"], postcondition="TraceAccepted", workers=1, timeout=1800,
                 env={"TRACE": path}, expect_violation=True)
     import re
@@ -243,7 +243,7 @@ def run_C01(ctx):
 
 def run_C03(ctx):
     rate = 24 if ctx.quick else 1
-    recs = exec_cases(ctx, "isa", ["alu", "jmp", "far", "farcall", "mem", "cfg"], rate, timeout=1500)
+    recs = exec_cases(ctx, "isa", ["alu", "jmp", "far", "farcall", "mem", "cfg", "calls"], rate, timeout=1500)
     ctx.nontrivial = len({json.dumps(r["case"]["id"]) for r in recs})
     rep = replay_exec(ctx, "isa", recs, ["jit"], pair="interp")
     ctx.disagreements_checked = rep.get("disagreements_checked", 0)
